@@ -1,6 +1,7 @@
 package main
 
 import (
+	"os"
 	"fmt"
 	"go/constant"
 	"go/token"
@@ -78,6 +79,8 @@ func (fi *fnInfo) numberValues(fn *ssa.Function) {
 }
 
 type Engine struct {
+	bigUsed map[*value]*bigArr   // large buffers handed out on this path
+	bigFree map[int][]*bigArr    // clean large buffers by capacity
 	prog   *ssa.Program
 	sol    *Solver
 	params map[string]int64
@@ -617,6 +620,7 @@ func (fr *frame) step(in ssa.Instruction) {
 		switch x := x.(type) {
 		case Slice:
 			i := e.boundsIndex(idx, int64(x.len))
+			e.touch(x.arr, x.off+int(i), x.off+int(i)+1)
 			fr.put(in, &x.arr[x.off+int(i)])
 		case *value:
 			if x == nil {
@@ -826,12 +830,71 @@ func (e *Engine) nextRune(it *mapIter) value {
 	return Tuple{true, int64(start), int64(r)}
 }
 
-func (e *Engine) makeSlice(et types.Type, ln, cp int) Slice {
-	arr := make([]value, cp)
-	if _, basic := et.Underlying().(*types.Basic); basic && cp >= 1<<15 {
-		// large buffers (tar's 150 KiB / 4 MiB pools): cells stay nil, which every read treats as the zero value
-		return Slice{arr, 0, ln, cp}
+// bigArr is a large buffer whose cells are recycled between paths: only the range that a path could
+// have written (every address taken, every copy/append/stream read into it) is cleared again.
+type bigArr struct {
+	arr    []value
+	lo, hi int // dirty range [lo, hi)
+}
+
+const bigArrMin = 1 << 15
+
+// touch records that cells [lo, hi) of arr may be written.
+func (e *Engine) touch(arr []value, lo, hi int) {
+	if len(arr) < bigArrMin || hi <= lo {
+		return
 	}
+	if b := e.bigUsed[&arr[0]]; b != nil {
+		if b.hi == b.lo {
+			b.lo, b.hi = lo, hi
+			return
+		}
+		if lo < b.lo {
+			b.lo = lo
+		}
+		if hi > b.hi {
+			b.hi = hi
+		}
+	}
+}
+
+// releaseBig returns the path's large buffers to the free list (called between paths).
+func (e *Engine) releaseBig() {
+	for k, b := range e.bigUsed {
+		for i := b.lo; i < b.hi; i++ {
+			b.arr[i] = nil
+		}
+		if bigArrCheck {
+			for i, c := range b.arr {
+				if c != nil {
+					panic(fmt.Sprintf("ENGINE large buffer cell %d written outside its recorded range [%d,%d)", i, b.lo, b.hi))
+				}
+			}
+		}
+		b.lo, b.hi = 0, 0
+		e.bigFree[len(b.arr)] = append(e.bigFree[len(b.arr)], b)
+		delete(e.bigUsed, k)
+	}
+}
+
+var bigArrCheck = os.Getenv("VERIF_BIGCHECK") != ""
+
+func (e *Engine) makeSlice(et types.Type, ln, cp int) Slice {
+	if _, basic := et.Underlying().(*types.Basic); basic && cp >= bigArrMin {
+		// large buffers (tar's 150 KiB / 4 MiB pools): cells stay nil, which every read treats as the zero value
+		if e.bigUsed == nil {
+			e.bigUsed, e.bigFree = map[*value]*bigArr{}, map[int][]*bigArr{}
+		}
+		var b *bigArr
+		if fl := e.bigFree[cp]; len(fl) > 0 {
+			b, e.bigFree[cp] = fl[len(fl)-1], fl[:len(fl)-1]
+		} else {
+			b = &bigArr{arr: make([]value, cp)}
+		}
+		e.bigUsed[&b.arr[0]] = b
+		return Slice{b.arr, 0, ln, cp}
+	}
+	arr := make([]value, cp)
 	z := e.zero(et)
 	switch z.(type) {
 	case Struct, Array:
@@ -1181,12 +1244,14 @@ func (fr *frame) builtin(b *ssa.Builtin, cc *ssa.CallCommon, args []value, defer
 			for i := 0; i < n; i++ {
 				tmp[i] = copyVal(src.arr[src.off+i])
 			}
+			e.touch(dst.arr, dst.off, dst.off+n)
 			copy(dst.arr[dst.off:dst.off+n], tmp)
 		case string, SymStr:
 			sb, _ := strBytes(src)
 			if len(sb) < n {
 				n = len(sb)
 			}
+			e.touch(dst.arr, dst.off, dst.off+n)
 			for i := 0; i < n; i++ {
 				dst.arr[dst.off+i] = sb[i]
 			}
@@ -1205,6 +1270,7 @@ func (fr *frame) builtin(b *ssa.Builtin, cc *ssa.CallCommon, args []value, defer
 			return s
 		}
 		if s.len+t.len <= s.cap {
+			e.touch(s.arr, s.off+s.len, s.off+s.len+t.len)
 			for i := 0; i < t.len; i++ {
 				s.arr[s.off+s.len+i] = copyVal(t.arr[t.off+i])
 			}
